@@ -486,6 +486,15 @@ impl<'a> Rw<'a> {
         if mc.method == "count" && mc.args.is_empty() {
             return self.try_filter_count(mc);
         }
+        if mc.method == "unzip" && mc.args.is_empty() {
+            return self.try_enum_filter_enum_map_unzip(mc);
+        }
+        if mc.method == "collect" && mc.args.is_empty() {
+            return self.try_enum_filter_map_collect(mc);
+        }
+        if mc.method == "filter_map" && mc.args.len() == 1 {
+            return self.try_range_filter_map(mc);
+        }
         if mc.method == "filter" && mc.args.len() == 1 {
             return self.try_filter_collect(mc);
         }
@@ -614,6 +623,102 @@ impl<'a> Rw<'a> {
         self.visit_expr(x);
         self.visit_expr(&mc.args[0]);
         self.visit_expr(&mc.args[1]);
+        true
+    }
+
+    /// R13: `X.iter().enumerate().filter(P).enumerate().map(F).unzip()` -> two vectors filled by the index loop
+    /// `j = 0; for i in 0..X.len() { if P(&(i, &X[i])) { let t = F((j, (i, &X[i]))); a.push(t.0); b.push(t.1); j += 1 } }`
+    fn try_enum_filter_enum_map_unzip(&mut self, mc: &syn::ExprMethodCall) -> bool {
+        let map = match &*mc.receiver { syn::Expr::MethodCall(m) if m.method == "map" && m.args.len() == 1 => m, _ => return false };
+        let en2 = match &*map.receiver { syn::Expr::MethodCall(m) if m.method == "enumerate" && m.args.is_empty() => m, _ => return false };
+        let fl = match &*en2.receiver { syn::Expr::MethodCall(m) if m.method == "filter" && m.args.len() == 1 => m, _ => return false };
+        let en1 = match &*fl.receiver { syn::Expr::MethodCall(m) if m.method == "enumerate" && m.args.is_empty() => m, _ => return false };
+        let it = match &*en1.receiver { syn::Expr::MethodCall(m) if m.method == "iter" && m.args.is_empty() => m, _ => return false };
+        let k = self.iter_chain_idx;
+        let ls = match self.spec.iter_loops.get(&k.to_string()).cloned() { Some(l) => l, None => return false };
+        self.iter_chain_idx += 1;
+        let x = &*it.receiver;
+        let (xs, xe) = br(x.span());
+        let (ps, pe) = br(fl.args[0].span());
+        let (fs, fe) = br(map.args[0].span());
+        let (_, end) = br(mc.span());
+        let mut inv = String::new();
+        if !ls.invariant.is_empty() { inv.push_str(&format!(" invariant {},", ls.invariant.join(", "))); }
+        let dec = if ls.decreases.is_empty() { "__it.len() - __i".to_string() } else { ls.decreases.clone() };
+        self.insert_open(xs, "{ let __it = ".to_string());
+        self.replace_range(xe, ps, "; let __p = ".to_string(), "R13-filter-map-unzip");
+        self.replace_range(pe, fs, "; let __f = ".to_string(), "R13-filter-map-unzip");
+        self.replace_range(fe, end, format!(
+            "; let mut __a = Vec::new(); let mut __b = Vec::new(); let mut __j: usize = 0; let mut __i: usize = 0; while __i < __it.len(){} decreases {}, {{ {} if __p(&(__i, &__it[__i])) {{ let __t = __f((__j, (__i, &__it[__i]))); __a.push(__t.0); __b.push(__t.1); __j += 1; }} __i += 1; }} {} (__a, __b) }}",
+            inv, dec, ls.body_prologue, ls.after), "R13-filter-map-unzip");
+        self.visit_expr(x);
+        self.visit_expr(&fl.args[0]);
+        self.visit_expr(&map.args[0]);
+        true
+    }
+
+    /// R13: `X.iter().enumerate().filter_map(F).collect()` -> `for i in 0..X.len() { if let Some(v) = F((i, &X[i])) { out.push(v) } }`
+    fn try_enum_filter_map_collect(&mut self, mc: &syn::ExprMethodCall) -> bool {
+        let fm = match &*mc.receiver { syn::Expr::MethodCall(m) if m.method == "filter_map" && m.args.len() == 1 => m, _ => return false };
+        let en = match &*fm.receiver { syn::Expr::MethodCall(m) if m.method == "enumerate" && m.args.is_empty() => m, _ => return false };
+        let it = match &*en.receiver { syn::Expr::MethodCall(m) if m.method == "iter" && m.args.is_empty() => m, _ => return false };
+        let k = self.iter_chain_idx;
+        let ls = match self.spec.iter_loops.get(&k.to_string()).cloned() { Some(l) => l, None => return false };
+        self.iter_chain_idx += 1;
+        let x = &*it.receiver;
+        let (xs, xe) = br(x.span());
+        let (fs, fe) = br(fm.args[0].span());
+        let (_, end) = br(mc.span());
+        let mut inv = String::new();
+        if !ls.invariant.is_empty() { inv.push_str(&format!(" invariant {},", ls.invariant.join(", "))); }
+        let dec = if ls.decreases.is_empty() { "__it.len() - __i".to_string() } else { ls.decreases.clone() };
+        self.insert_open(xs, "{ let __it = ".to_string());
+        self.replace_range(xe, fs, "; let __f = ".to_string(), "R13-filter-map-collect");
+        self.replace_range(fe, end, format!(
+            "; let mut __v = Vec::new(); let mut __i: usize = 0; while __i < __it.len(){} decreases {}, {{ {} let __o = __f((__i, &__it[__i])); if let Some(__x) = __o {{ __v.push(__x); }} __i += 1; }} {} __v }}",
+            inv, dec, ls.body_prologue, ls.after), "R13-filter-map-collect");
+        self.visit_expr(x);
+        self.visit_expr(&fm.args[0]);
+        true
+    }
+
+    /// R13: `(0..N).filter_map(|i| BODY)` (lazy, its closure counts in a captured variable, consumed once and entirely by the
+    /// `quote!` repetition that follows) -> `for i in 0..N { if let Some(v) = BODY { out.push(v) } }` with BODY inlined.
+    /// DROPPED: laziness (as for the filter adaptor above).
+    fn try_range_filter_map(&mut self, mc: &syn::ExprMethodCall) -> bool {
+        let range = match &*mc.receiver {
+            syn::Expr::Paren(p) => match &*p.expr { syn::Expr::Range(r) => r, _ => return false },
+            _ => return false,
+        };
+        let (lo, hi) = match (&range.start, &range.end, &range.limits) {
+            (Some(a), Some(b), syn::RangeLimits::HalfOpen(_)) => (a, b),
+            _ => return false,
+        };
+        let cl = match &mc.args[0] { syn::Expr::Closure(c) => c, _ => return false };
+        let var = match cl.inputs.first() {
+            Some(syn::Pat::Ident(pi)) if cl.inputs.len() == 1 && pi.subpat.is_none() => pi.ident.to_string(),
+            _ => return false,
+        };
+        let k = self.iter_chain_idx;
+        let ls = match self.spec.iter_loops.get(&k.to_string()).cloned() { Some(l) => l, None => return false };
+        self.iter_chain_idx += 1;
+        self.closure_idx += 1;
+        let (ms, _) = br(mc.span());
+        let (los, loe) = br(lo.span());
+        let (his, hie) = br(hi.span());
+        let (bs, be) = br(cl.body.span());
+        let (_, end) = br(mc.span());
+        let mut inv = String::new();
+        if !ls.invariant.is_empty() { inv.push_str(&format!(" invariant {},", ls.invariant.join(", "))); }
+        let dec = if ls.decreases.is_empty() { format!("__hi - {}", var) } else { ls.decreases.clone() };
+        self.replace_range(ms, los, format!("{{ let mut {}: usize = ", var), "R13-range-filter-map");
+        self.replace_range(loe, his, "; let __hi: usize = ".to_string(), "R13-range-filter-map");
+        self.replace_range(hie, bs, format!(
+            "; let mut __v = Vec::new(); while {} < __hi{} decreases {}, {{ {} let __o = ", var, inv, dec, ls.body_prologue), "R13-range-filter-map");
+        self.replace_range(be, end, format!("; if let Some(__x) = __o {{ __v.push(__x); }} {} += 1; }} {} __v }}", var, ls.after), "R13-range-filter-map");
+        self.visit_expr(lo);
+        self.visit_expr(hi);
+        self.visit_expr(&cl.body);
         true
     }
 
@@ -1126,6 +1231,24 @@ impl<'a, 'ast> Visit<'ast> for Rw<'a> {
                                         item: self.item.clone(),
                                         orig: self.text(inner.span()).to_string(),
                                         repl: format!("{}: _; let {} = {}{}", name, pi.ident, "*".repeat(depth), name),
+                                    });
+                                }
+                                syn::Pat::Tuple(t) => {
+                                    // `&(a, _)` -> `let a = (*p).0;`
+                                    for (j, el) in t.elems.iter().enumerate() {
+                                        match el {
+                                            syn::Pat::Ident(pi) if pi.subpat.is_none() && pi.by_ref.is_none() => {
+                                                prologue.push_str(&format!("let {} = ({}{}).{}; ", pi.ident, "*".repeat(depth), name, j));
+                                            }
+                                            syn::Pat::Wild(_) => {}
+                                            _ => self.errors.push("R5: unsupported element in a `&(..)` closure parameter".to_string()),
+                                        }
+                                    }
+                                    self.log.push(Rewrite {
+                                        rule: "R5-ref-pattern".to_string(),
+                                        item: self.item.clone(),
+                                        orig: self.text(inner.span()).to_string(),
+                                        repl: format!("{}: _; field-wise lets through the reference", name),
                                     });
                                 }
                                 _ => self.errors.push("R5: unsupported reference pattern in closure parameter".to_string()),
